@@ -17,11 +17,30 @@ reg("C08",
          "reads, so its queue of 100+burst overflows) compared with the model; 1/3 concurrent: 2-16 goroutines subscribe together, released by a "
          "rendez-vous at the schedule point between burst and registration (all inside the shared read lock), while a feeder pushes 3-22 blocks; "
          "observation = what each subscription's queue contained, the hub's full event log (a tracking subscription), registered subscribers; "
-         "non-trivial = at least one subscription served",
+         "non-trivial = at least one subscription served. Stage C08S (also-stage, 60 / 1500 cases): the real hub run under an explicit goroutine "
+         "schedule (producer, 2-6 requesters by number / with forks / from cursor / through cursor, their consumers running Subscription.Run; "
+         "150-2500 entries: random segments producer-, requester-, consumer-heavy, requesters in lock step, readers inside while the writer "
+         "announces; 65% with a tracking subscription registered first; 1/15 with a subscriber that never reads or reads too late; 50% with "
+         "requesters really waiting inside RLock()/Lock()), every goroutine released one atomic step at a time at the schedule points of "
+         "repo_patches/S6_hooks_hub_sched.diff, then completed round-robin; observation per schedule entry = step made or not, schedule point "
+         "reached, RWMutex.Lock() returned or not, channel length of every subscription; at the end every delivery, capacity, drop, h.subscribers order",
     level_text="Model/HubSubs.v (registration, fan-out with capacity drop, drain) is compared with the real hub on sequential operation sequences; "
                "the property (burst followed by every later event exactly once and in order, slow subscribers dropped alone, nothing lost under concurrent "
-               "registration) is evaluated on sequential and concurrent observations; thorough tier adds a -race build.",
+               "registration) is evaluated on sequential and concurrent observations; thorough tier adds a -race build. "
+               "Schedule level: Model/HubSched.v (the model of the c08_sched_* theorems) is run by Check/C08S_Check.v on the same schedule as the real "
+               "hub and compared entry by entry at lock granularity (enabledness of every step, program counter = schedule point, writer announcement "
+               "and admission, effect on every channel), and at the end on deliveries, drops and the order of h.subscribers; the property "
+               "(exactly-once from the burst on against the tracking subscription, drops only of full channels, registered = served and not dropped) is "
+               "evaluated on the same observations.",
     trusted_base=["atomicity of a subscription with respect to block processing rests on sync.RWMutex (Forkable) and the subscribers mutex; the Go "
                   "scheduler and memory model are trusted, data races are searched with the race detector in the thorough tier",
-                  "verif hooks: Subscription.VerifDrain/VerifCap, ForkableHub.VerifSubscribers, schedule point hub.VerifPoint before the registration"],
+                  "verif hooks: Subscription.VerifDrain/VerifCap, ForkableHub.VerifSubscribers, schedule point hub.VerifPoint before the registration",
+                  "C08S hooks (build tag verif): forkable/verif_hooks_sched.go shadows the promoted Lock/Unlock/RLock/RUnlock of Forkable's embedded "
+                  "sync.RWMutex with versions that pass through forkable.VerifPoint before and after the lock operation (forkable.go unchanged); "
+                  "verifPoint calls in hub.subscribe (locked, appended, unlocked), hub.processBlock (enter, snapshot, before-push, push-failed, "
+                  "after-push), Subscription.run (receive); Subscription.VerifLen, ForkableHub.VerifSubscriberList, VerifSubscribersLockFree (TryLock)",
+                  "C08S: steps that would wait for a lock are not attempted unless the case says so; their enabledness is read off the real lock "
+                  "(RWMutex.TryRLock, Mutex.TryLock); goroutines are identified by their runtime goroutine id; the statement "
+                  "h.subscribers = append(h.subscribers, sub) is one step of the code and two of the model (read, write); sync.RWMutex / sync.Mutex "
+                  "serve a waiting goroutine at the unlock, before later arrivals: the model (retry) allows more schedules than the code"],
     assumptions=["total events per subscription below the queue capacity unless the case is a slow-consumer case"])
